@@ -339,10 +339,10 @@ Proof.
   - (* PRwGet *)
     destruct e; try exact I.
     + destruct (newest (k_vers (kv s k))) as [[r0 v0]|] eqn:En.
-      * destruct ((match v0 with [] => true | _ => false end) || negb (r0 =? prev)) eqn:Ec.
+      * destruct (negb (r0 =? prev)) eqn:Ec.
         -- apply kinv_set_thr; auto; rewrite ?Ht; simpl; auto; discriminate.
         -- apply kinv_set_thr; auto; rewrite ?Ht; simpl; auto; try discriminate.
-           apply orb_false_iff in Ec. destruct Ec as [_ Ec]. apply negb_false_iff, N.eqb_eq in Ec. subst r0.
+           apply negb_false_iff, N.eqb_eq in Ec. subst r0.
            apply newest_In in En. eapply (ki_le s I); eauto.
       * apply kinv_set_thr; auto; rewrite ?Ht; simpl; auto; discriminate.
     + apply kinv_set_thr; auto; rewrite ?Ht; simpl; auto; discriminate.
